@@ -18,6 +18,7 @@ package types
 
 import (
 	"fmt"
+	"sort"
 )
 
 type SSHKey struct {
@@ -58,15 +59,18 @@ func (s *SSHConfig) DecodeMapstructure(value interface{}) error {
 	if !ok {
 		return fmt.Errorf("invalid ssh config type %T", value)
 	}
-	result := make(SSHConfig, len(v))
-	i := 0
-	for id, path := range v {
+	ids := make([]string, 0, len(v))
+	for id := range v {
+		ids = append(ids, id)
+	}
+	sort.Strings(ids)
+	result := make(SSHConfig, 0, len(v))
+	for _, id := range ids {
 		key := SSHKey{ID: id}
-		if path != nil {
+		if path := v[id]; path != nil {
 			key.Path = fmt.Sprint(path)
 		}
-		result[i] = key
-		i++
+		result = append(result, key)
 	}
 	*s = result
 	return nil
